@@ -98,6 +98,7 @@ func (ds *AnySource) RunDoneActivate() {
 
 // RunDoneDeactivate calls Done on ds.runDone, this should only be called (by defer) in Start
 func (ds *AnySource) RunDoneDeactivate() {
+	verifPoint("rundone:deactivate")
 	ds.sourceStateLock.Lock()
 	ds.sourceState = Inactive
 	ds.runDone.Done()
@@ -141,26 +142,32 @@ func Start(ds DataSource, queuedRequests chan func(), Npresamp int, Nsamples int
 	if err := ds.SetStateStarting(); err != nil {
 		return err
 	}
+	verifPoint("start:starting")
 	if err := ds.Sample(); err != nil {
 		ds.SetStateInactive()
 		return err
 	}
+	verifPoint("start:sampled")
 
 	if err := ds.PrepareChannels(); err != nil {
 		ds.SetStateInactive()
 		return err
 	}
+	verifPoint("start:channels")
 
 	if err := ds.PrepareRun(Npresamp, Nsamples); err != nil {
 		ds.SetStateInactive()
 		return err
 	}
+	verifPoint("start:prepared")
 
 	ds.RunDoneActivate() // Call RunDoneDeactivate inside CoreLoop when it returns.
+	verifPoint("start:activated")
 	if err := ds.StartRun(); err != nil {
 		ds.RunDoneDeactivate()
 		return err
 	}
+	verifPoint("start:running")
 
 	go CoreLoop(ds, queuedRequests)
 	return nil
@@ -176,22 +183,26 @@ func CoreLoop(ds DataSource, queuedRequests chan func()) {
 		// Use select to interleave 2 activities that should NOT be done concurrently:
 		// 1. Handle RPC requests to change data processing parameters (e.g. trigger).
 		// 2. Handle new data and process it.
+		verifPoint("core:before-select")
 		select {
 
 		// Handle RPC requests
 		case request := <-queuedRequests:
 			request()
+			verifPoint("core:after-request")
 
 		// Handle data, or recognize the end of data
 		case block, ok := <-nextBlock:
 			if !ok {
 				// nextBlock was closed in the data production loop when abortSelf was closed
 				log.Println("nextBlock channel was closed; stopping the source normally")
+				verifPoint("core:before-return")
 				return
 
 			} else if block.err != nil {
 				// errors in block indicate a problem with source: need to close down
 				log.Printf("nextBlock received Error; stopping source: %s\n", block.err.Error())
+				verifPoint("core:before-return")
 				return
 			}
 			if err := ds.ProcessSegments(block); err != nil {
@@ -201,6 +212,7 @@ func CoreLoop(ds DataSource, queuedRequests chan func()) {
 			// In some sources, ds.getNextBlock has to be called again to initiate the next
 			// data acquisition step (Lancero, specifically).
 			nextBlock = ds.getNextBlock()
+			verifPoint("core:after-block")
 		}
 	}
 }
@@ -208,6 +220,7 @@ func CoreLoop(ds DataSource, queuedRequests chan func()) {
 // Stop tells the data supply to deactivate.
 func (ds *AnySource) Stop() error {
 	ds.sourceStateLock.Lock()
+	verifPoint("stop:locked")
 	switch ds.sourceState {
 	case Inactive:
 		ds.sourceStateLock.Unlock()
@@ -227,14 +240,17 @@ func (ds *AnySource) Stop() error {
 	}
 	ds.sourceState = Stopping
 	closeIfOpen(ds.abortSelf)
+	verifPoint("stop:abort-closed")
 	ds.sourceStateLock.Unlock()
 
 	ds.RunDoneWait()
+	verifPoint("stop:waited")
 	ds.groupKeysSorted = make([]GroupIndex, 0)
 	if ds.writingState.Active { // if writing, Stop writing
 		wcc := WriteControlConfig{Request: "STOP"}
 		ds.WriteControl(&wcc)
 	}
+	verifPoint("stop:before-return")
 	return nil
 }
 
